@@ -77,6 +77,7 @@ def groups(tier):
         out.append(('ints[%s]' % m, ('ints', m)))
     out.append(('pairing', ('pairing', tier)))
     out.append(('tables', ('tables',)))
+    out.append(('cache-base-case', ('cache0',)))
     return out
 
 
@@ -399,7 +400,38 @@ def run_pairing(tier):
     return dict(pairing_configs=cnt)
 
 
+def run_cache0():
+    """rule() returns a cached inverse when the key is present, and the obligations above are proved for the inverse it
+    computes; the cache invariant `entry == pinv(_fd_matrix(key))` is maintained by the only store (C09).  Its base
+    case is the content at import: every entry present then must be an inverse of its moment matrix up to
+    conditioning-scaled rounding, checked in exact rational arithmetic on the floating-point entries."""
+    from fractions import Fraction as Fr
+    from .C09 import fresh_fd_module
+    fd = mods()['fd']
+    fresh = fresh_fd_module(fd)
+    bad = []
+    for key, val in dict(fresh.FD_RULES).items():
+        try:
+            M = np.asarray(fresh.LogRule._fd_matrix(*key), dtype=float)
+            E = np.asarray(val, dtype=float)
+            if E.shape != M.shape or E.shape[0] != E.shape[1]:
+                bad.append((key, 'shape', E.shape, M.shape)); continue
+            T = E.shape[0]
+            for i in range(T):
+                for j in range(T):
+                    acc = sum(Fr(float(E[i, k])) * Fr(float(M[k, j])) for k in range(T)) - (1 if i == j else 0)
+                    scale = sum(abs(Fr(float(E[i, k])) * Fr(float(M[k, j]))) for k in range(T)) + 1
+                    if abs(acc) > Fr(10 ** 4) * Fr(2) ** -52 * scale:
+                        bad.append((key, 'row %d col %d: |E.M - I| = %.3g' % (i, j, float(abs(acc))))); break
+        except Exception as e:
+            bad.append((key, repr(e)[:80]))
+    solve.fact('entries-of-FD_RULES-at-import-are-inverses-of-their-moment-matrix[%d entries]' % len(fresh.FD_RULES), not bad, note=str(bad[:2])[:300])
+    return dict(entries_at_import=len(fresh.FD_RULES))
+
+
 def run_group(args):
+    if args[0] == 'cache0':
+        return run_cache0()
     if args[0] == 'cfg':
         return run_cfg(args[1], args[2], args[3])
     if args[0] == 'ints':
@@ -414,6 +446,8 @@ def run_group(args):
 def replay_case(ob):
     """property-level native replay for the configuration of a refuted obligation"""
     import re
+    if ob['name'].startswith('cache-base-case/'):
+        return dict(kind='C06.cache0')
     mm = re.search(r'cfg\[(\w+),n=(\d+)\]/order=(\d+)/', ob['name'])
     if mm:
         method, n, order = mm.group(1), int(mm.group(2)), int(mm.group(3))
